@@ -338,6 +338,17 @@ def run(prop, tier="quick", seed=0, replay=None, only=None):
             undecided.append(f"{name}: the sums in the goal could not be compared within the solver budget")
             continue
         if any(v == "sat" for v in verdicts):
+            # counter-models that contradict the meaning of a finite sum are artefacts of the sum abstraction
+            checks = [validate_sums(o) for o in obs if o.verdict == "sat"]
+            for o, r in zip([o for o in obs if o.verdict == "sat"], checks):
+                o.meta["sum_validation"] = r
+            if os.environ.get("VERIF_DEBUG"):
+                print("validate_sums:", name, checks)
+            if checks and all(r in ("refuted", "unknown") for r in checks):
+                undecided.append(f"{name}: the solver's counter-model treats the finite sums in the obligation as unrelated constants and "
+                                 + ("no counter-model survives once they are given their meaning for the ranges tried (abstraction artefact)"
+                                    if "refuted" in checks else "could not be checked against their meaning"))
+                continue
             failed_names.append(name)
             if any(v[0] == name for v in violations):
                 continue
@@ -417,6 +428,99 @@ def run(prop, tier="quick", seed=0, replay=None, only=None):
     return 0
 
 
+def validate_sums(ob, timeout_ms=20000, max_terms=300, rounds=8):
+    """a `sat` answer treats every finite sum in the obligation as an unrelated real constant.  Re-solve in process and evaluate
+    each sum term by term under the counter-model.  When every sum symbol has the value of its own sum the model is a
+    counter-example with the sums meaning what they mean: 'genuine'.  Otherwise the (valid) lemma `range = [lo0, n0) -> symbol =
+    the explicit sum of its n0 - lo0 terms` is added for every sum and the obligation is solved again, a few rounds: 'refuted' when
+    it becomes unsatisfiable (the sat answer was an artefact of the abstraction and the obligation holds), 'unknown' when no verdict
+    is reached (no model in time, nested sums, huge or irrational values, rounds used up)"""
+    sig = (ob.meta or {}).get("sigma_smt2")
+    if not sig or not ob.smt2:
+        return "no-sums"
+    if (ob.meta or {}).get("sigma_nested"):
+        return "unknown"
+    try:
+        from fractions import Fraction
+        c = z3.Context()
+        s = z3.Solver(ctx=c)
+        s.set("timeout", timeout_ms)
+        s.from_string(ob.smt2)
+        aux = z3.parse_smt2_string(sig, ctx=c)
+        n_atoms = ob.meta.get("sigma_n", 0)
+        sk = z3.Int("sk0", c)
+        atoms = [(aux[4 * j].arg(1), aux[4 * j + 1].arg(1), aux[4 * j + 2].arg(1), aux[4 * j + 3].arg(1)) for j in range(n_atoms)]
+
+        def frac(v):
+            v = z3.simplify(v)
+            if z3.is_int_value(v):
+                return Fraction(v.as_long())
+            if z3.is_rational_value(v):
+                return Fraction(v.numerator_as_long(), v.denominator_as_long())
+            return None
+        tried = 0
+        for _ in range(rounds):
+            r = s.check()
+            if r == z3.unsat:
+                return "refuted" if tried else "unknown"
+            if r != z3.sat:
+                if os.environ.get("VERIF_DEBUG"):
+                    print("validate_sums: solver", r, s.reason_unknown())
+                return "unknown"
+            m = s.model()
+            consistent = True
+            lemmas, fix = [], []
+            for sym, core, ext, lo in atoms:
+                n0 = frac(m.eval(ext, model_completion=True))
+                l0 = frac(m.eval(lo, model_completion=True))
+                if n0 is None or l0 is None or n0 - l0 > max_terms:
+                    if os.environ.get("VERIF_DEBUG"):
+                        print("validate_sums: range", n0, l0)
+                    return "unknown"
+                terms = [z3.substitute(core, (sk, z3.IntVal(i, c))) for i in range(int(l0), int(n0))]
+                explicit = z3.Sum(terms) if terms else z3.RealVal(0, c)
+                total = frac(m.eval(explicit, model_completion=True))
+                have = frac(m.eval(sym, model_completion=True))
+                if total is None or have is None:
+                    if os.environ.get("VERIF_DEBUG"):
+                        print("validate_sums: value", m.eval(explicit, model_completion=True), m.eval(sym, model_completion=True))
+                    return "unknown"
+                if have != total:
+                    consistent = False
+                lemmas.append(sym == explicit)
+                fix.append(z3.And(ext == int(n0), lo == int(l0)))
+            if consistent:
+                if os.environ.get("VERIF_DEBUG"):
+                    open(os.path.join(VERIF, "scratch", "genuine_" + ob.name.split(".")[-1][:40] + ".smt2"), "w").write(ob.smt2 + "\n;;;;SIGMA\n" + sig)
+                    print("validate_sums: consistent model", [(str(m.eval(e_, model_completion=True)), str(m.eval(l_, model_completion=True)), str(m.eval(s_, model_completion=True))) for s_, c_, e_, l_ in atoms])
+                return "genuine"
+            # the same ranges, now with every sum meaning its explicit sum: is there a counter-model at all?
+            tried += 1
+            s.push()
+            for f_ in fix:
+                s.add(f_)
+            for lm in lemmas:
+                s.add(lm)
+            r2 = s.check()
+            if r2 == z3.sat:
+                if os.environ.get("VERIF_DEBUG"):
+                    open(os.path.join(VERIF, "scratch", "genuine_" + ob.name.split(".")[-1][:40] + ".smt2"), "w").write(s.to_smt2())
+                    m2 = s.model()
+                    print("validate_sums: fixed-range model", [(str(m2.eval(e_, model_completion=True)), str(m2.eval(l_, model_completion=True)), str(m2.eval(s_, model_completion=True))) for s_, c_, e_, l_ in atoms])
+                return "genuine"
+            s.pop()
+            if r2 != z3.unsat:
+                if os.environ.get("VERIF_DEBUG"):
+                    print("validate_sums: fixed-range query", r2, s.reason_unknown())
+                return "unknown"
+            s.add(z3.Not(z3.And(*fix)))          # no counter-model with these ranges: look at others
+        return "refuted"
+    except Exception as e:       # a failure of the validation is not a verdict
+        if os.environ.get("VERIF_DEBUG"):
+            traceback.print_exc()
+        return "unknown"
+
+
 def write_replay(prop, obligation, contract, inputs, why, ob):
     safe = obligation.replace("/", "_")
     rdir = "replays" if not (os.environ.get("VERIF_REPO") or os.environ.get("VERIF_SELFTEST")) else os.path.join("scratch", "replays")
@@ -480,6 +584,12 @@ def build_evidence(prop, tier, seed, contracts, all_obs, by_name, proved, infos,
     n_distinct = sum(len(r["distinct"]) for r in nat.values())
     nat_samples = [smp for r in nat.values() for smp in r["samples"][:1]]
     level = "proof" if counted else "exploration"
+    try:        # a property claimed at exploration level stays there even when some of its contracts carry proof obligations
+        _m = json.load(open(os.path.join(VERIF, "MANIFEST.json")))
+        if any(c["property_id"] == prop and c["level_claimed"]["category"] == "exploration" for c in _m["checks"]):
+            level = "exploration"
+    except Exception:
+        pass
     if not counted:
         samples = nat_samples
     ev = {
